@@ -85,6 +85,8 @@ def slot_identity(F, R):
 
 def check(F, R, tier):
     slot_identity(F, R)
+    from . import C02
+    C02.position_is_a_slot_index(F, R)   # a connection id is a slot index of the sender's connection table, never a rank
     lib.flavour_siblings(R, F, r'^iceoryx2::(port::server::Server|pending_response::PendingResponse)::<.*>::receive$', 'SIBLINGS', 'a request / response is handed out under the same conditions for every payload flavour', floor=2)
     # ---- client side
     cs = F.find_fns(r'^iceoryx2::port::client::ClientSharedState::<.*>::send_request$')
